@@ -1263,6 +1263,7 @@ func (r *replicateChannelHandler) innerHandleReplicateMsg(forward bool, msg *api
 	p.CollectionName = msg.CollectionName
 	p.PChannelName = msg.PChannelName
 	p.TaskID = msg.TaskID
+	verifYield("pack:enqueue", r.targetPChannel, msg.CollectionID)
 	GetTSManager().SendTargetMsg(r.getTSManagerChannelKey(r.targetPChannel), p)
 }
 
@@ -1497,6 +1498,7 @@ func (r *replicateChannelHandler) handlePack(forward bool, pack *msgstream.MsgPa
 	}
 	GetTSManager().CollectTS(tsManagerChannelKey, beginTS)
 	r.addCollectionLock.RUnlock()
+	verifYield("pack:collected", r.targetPChannel, -1)
 
 	if r.msgPackCallback != nil && !forward {
 		r.msgPackCallback(r.sourcePChannel, pack)
@@ -1754,6 +1756,7 @@ func (r *replicateChannelHandler) handlePack(forward bool, pack *msgstream.MsgPa
 		GetTSManager().CollectTS(tsManagerChannelKey, newPack.EndTs)
 	}
 
+	verifYield("pack:computed", r.targetPChannel, sourceCollectionID)
 	GetTSManager().LockTargetChannel(tsManagerChannelKey)
 	defer GetTSManager().UnLockTargetChannel(tsManagerChannelKey)
 
